@@ -121,3 +121,272 @@ def smoke():
     first, _ = _cli(["/usr/bin/cvc5"], "(set-logic ALL)(declare-const x Int)(assert (> x 1))(assert (< x 1))(check-sat)", 5)
     assert first == "unsat", first
     return True
+
+
+# ----------------------------------------------------------------------
+# Ground instantiation of universally quantified hypotheses.
+#
+# Hypotheses coming from spec clauses are of the form  forall j. guard -> body
+# (range quantifiers, byte-string equalities).  z3's own instantiation (MBQI,
+# e-matching) is unstable on them when mixed with lambda arrays and div/mod
+# arithmetic.  Here the negated goal is skolemised, and every universal
+# hypothesis is replaced by its instances at the ground index terms that occur
+# in array selects.  Instances are consequences of the hypotheses, so `unsat`
+# of the ground formula is a proof; `sat` is only a *candidate* counter-model.
+
+def _ground_selects(fs, table):
+    """array-term id -> {index term id: index term} for every ground select"""
+    seen = set()
+
+    def visit(t):
+        if not z3.is_app(t) and not z3.is_quantifier(t):
+            return
+        key = t.get_id()
+        if key in seen:
+            return
+        seen.add(key)
+        if z3.is_quantifier(t):
+            visit(t.body())
+            return
+        if z3.is_select(t) and z3.is_int(t.arg(1)) and _ground(t.arg(1)) \
+                and _ground(t.arg(0)):
+            i = z3.simplify(t.arg(1))
+            table.setdefault(t.arg(0).get_id(), {})[i.get_id()] = i
+        for c in t.children():
+            visit(c)
+    for f in fs:
+        visit(f)
+
+
+_GROUND = {}
+
+
+def _ground(t):
+    k = t.get_id()
+    r = _GROUND.get(k)
+    if r is None:
+        if z3.is_var(t) or z3.is_quantifier(t):
+            v = False
+        else:
+            v = all(_ground(c) for c in t.children())
+        r = _GROUND[k] = (t, v)    # keeping t alive keeps its id unique
+    return r[1]
+
+
+def _patterns(body, nvars):
+    """selects A[j + c] in a quantifier body with A ground, j a bound
+    variable (de Bruijn index) and c ground: [(array, var index, offset c)].
+    Nested quantifier bodies are searched too (indices shifted)."""
+    out, seen = [], set()
+
+    def visit(t, shift):
+        if z3.is_quantifier(t):
+            visit(t.body(), shift + t.num_vars())
+            return
+        if not z3.is_app(t):
+            return
+        key = (t.get_id(), shift)
+        if key in seen:
+            return
+        seen.add(key)
+        if z3.is_select(t) and z3.is_int(t.arg(1)) and _ground(t.arg(0)) \
+                and not _ground(t.arg(1)):
+            idx = t.arg(1)
+            for v in range(nvars):
+                var = z3.Var(v + shift, z3.IntSort())
+                off = z3.simplify(idx - var)
+                if _ground(off):
+                    out.append((t.arg(0), v, off))
+                    break
+        for c in t.children():
+            visit(c, shift)
+    visit(body, 0)
+    return out
+
+
+def _size_key(t):
+    x = t.sexpr()
+    return (len(x), x)
+
+
+def _candidates(f, table, extra, cap):
+    """for a forall: per variable the terms to instantiate it with"""
+    n = f.num_vars()
+    cands = [dict() for _ in range(n)]
+    for arr, v, off in _patterns(f.body(), n):
+        for i in table.get(arr.get_id(), {}).values():
+            t = z3.simplify(i - off)
+            cands[v][t.get_id()] = t
+    for v in range(n):
+        if not cands[v]:
+            for t in extra:
+                cands[v][t.get_id()] = t
+    return [sorted(c.values(), key=_size_key)[:cap]
+            for c in cands]
+
+
+def _instantiate(f, table, extra, done, out, cap):
+    """append to `out` the instances of the universal (sub)formulas of f
+    that are not yet in `done`; returns the ground skeleton of f"""
+    if z3.is_quantifier(f):
+        if not f.is_forall():
+            return f
+        n = f.num_vars()
+        if any(f.var_sort(i) != z3.IntSort() for i in range(n)):
+            return z3.BoolVal(True)
+        import itertools
+        cands = _candidates(f, table, extra, cap if n == 1 else max(4, cap // 3))
+        insts = []
+        # de Bruijn index 0 is the innermost (last) variable
+        for combo in itertools.product(*cands):
+            key = (f.get_id(),) + tuple(t.get_id() for t in combo)
+            inst = z3.substitute_vars(f.body(), *combo)
+            insts.append(_instantiate(inst, table, extra, done, out, cap))
+        return z3.And(*insts) if insts else z3.BoolVal(True)
+    if z3.is_and(f):
+        return z3.And(*[_instantiate(c, table, extra, done, out, cap)
+                        for c in f.children()])
+    if z3.is_or(f):
+        return z3.Or(*[_instantiate(c, table, extra, done, out, cap)
+                       for c in f.children()])
+    if _has_quant(f):
+        # quantifier in a position we do not instantiate: weaken to true
+        # (sound for hypotheses in negation normal form)
+        return z3.BoolVal(True)
+    return f
+
+
+_HASQ = {}
+
+
+def _has_quant(t):
+    k = t.get_id()
+    r = _HASQ.get(k)
+    if r is None:
+        if z3.is_quantifier(t):
+            v = not t.is_lambda() or _has_quant(t.body())
+        else:
+            v = any(_has_quant(c) for c in t.children())
+        r = _HASQ[k] = (t, v)      # keeping t alive keeps its id unique
+    return r[1]
+
+
+_SK = [0]
+
+
+def _nnf(f, pos, under_forall):
+    """negation normal form with skolemisation of existentials that are not
+    under a universal; sub-formulas that cannot be handled are weakened to
+    true (all formulas are hypotheses of an unsat check: sound)"""
+    if not _has_quant(f):
+        return f if pos else z3.Not(f)
+    if z3.is_not(f):
+        return _nnf(f.arg(0), not pos, under_forall)
+    if z3.is_and(f) or z3.is_or(f):
+        kids = [_nnf(c, pos, under_forall) for c in f.children()]
+        conj = z3.is_and(f) == pos
+        return z3.And(*kids) if conj else z3.Or(*kids)
+    if z3.is_implies(f):
+        a = _nnf(f.arg(0), not pos, under_forall)
+        b = _nnf(f.arg(1), pos, under_forall)
+        return z3.Or(a, b) if pos else z3.And(a, b)
+    if z3.is_quantifier(f) and not f.is_lambda():
+        universal = f.is_forall() == pos
+        n = f.num_vars()
+        if universal:
+            body = _nnf(f.body(), pos, True)
+            vs = [z3.Const(f.var_name(i) + "!q", f.var_sort(i)) for i in range(n)]
+            # rebuild a forall over fresh constants (keeps de Bruijn handling
+            # inside z3)
+            inst = z3.substitute_vars(body, *reversed(vs))
+            return z3.ForAll(vs, inst)
+        if under_forall:
+            return z3.BoolVal(True)
+        _SK[0] += 1
+        sk = [z3.Const(f"{f.var_name(i)}!sk{_SK[0]}", f.var_sort(i))
+              for i in range(n)]
+        return _nnf(z3.substitute_vars(f.body(), *reversed(sk)), pos, False)
+    if z3.is_app_of(f, z3.Z3_OP_ITE) and z3.is_bool(f):
+        c, a, b = f.children()
+        if not _has_quant(c):
+            return z3.And(z3.Or(z3.Not(c), _nnf(a, pos, under_forall)),
+                          z3.Or(c, _nnf(b, pos, under_forall)))
+    if (z3.is_eq(f) or z3.is_app_of(f, z3.Z3_OP_IFF)) and z3.is_bool(f.arg(0)):
+        a, b = f.children()
+        both = z3.And(z3.Implies(a, b), z3.Implies(b, a))
+        return _nnf(both, pos, under_forall)
+    return z3.BoolVal(True)
+
+
+def ground_formulas(formulas, rounds=3, cap=40):
+    # ast ids are recycled once terms are garbage collected: the id-keyed
+    # caches are only valid while `formulas` keeps the terms alive
+    _GROUND.clear()
+    _HASQ.clear()
+    _SK[0] = 0
+    base = []
+    for f in formulas:
+        f = z3.simplify(f)          # beta-reduces selects of lambda arrays
+        if _has_quant(f):
+            f = _nnf(f, True, False)
+        if z3.is_and(f):
+            base.extend(f.children())
+        else:
+            base.append(f)
+    ground = [f for f in base if not _has_quant(f)]
+    quant = [f for f in base if _has_quant(f)]
+    insts = []
+    extra = []
+    for r in range(rounds):
+        table = {}
+        _ground_selects(ground + insts, table)
+        insts = [z3.simplify(_instantiate(q, table, extra, None, None, cap))
+                 for q in quant]
+    return ground + insts
+
+
+def prove_ground(hyps, goal, timeout_ms=None):
+    """try the ground-instantiated query first; returns Result.  A `sat`
+    answer here is a candidate only (Result.candidate = True)."""
+    timeout_ms = timeout_ms or DEFAULT_TIMEOUT_MS
+    t0 = time.time()
+    try:
+        fs = ground_formulas(list(hyps) + [z3.Not(goal)])
+    except z3.Z3Exception as e:
+        return None
+    s = z3.Solver()
+    s.set("timeout", timeout_ms)
+    for f in fs:
+        s.add(f)
+    r = s.check()
+    dt = time.time() - t0
+    if r == z3.unsat:
+        return _account(Result(PROVED, "z3-5.1(api,ground-inst)", dt))
+    if r == z3.sat:
+        res = Result(REFUTED, "z3-5.1(api,ground-inst)", dt, s.model())
+        res.candidate = True
+        return res
+    return None
+
+
+_plain_prove = prove
+
+
+def prove(hyps, goal, timeout_ms=None, quick_refute=False):
+    hyps = list(hyps)
+    if z3.is_true(z3.simplify(goal)):
+        return _account(Result(PROVED, "trivial", 0.0))
+    _GROUND.clear()
+    _HASQ.clear()
+    if not any(_has_quant(h) for h in hyps) and not _has_quant(goal):
+        return _plain_prove(hyps, goal, timeout_ms)
+    g = prove_ground(hyps, goal, timeout_ms)
+    if g is not None and g.verdict == PROVED:
+        return g
+    if quick_refute and g is not None and g.verdict == REFUTED:
+        return _account(g)
+    full = _plain_prove(hyps, goal, timeout_ms)
+    if full.verdict == UNKNOWN and g is not None and g.verdict == REFUTED:
+        _account(g)
+        return g       # candidate counter-model; must be confirmed by replay
+    return full
